@@ -80,9 +80,15 @@ def build(repo=None, features=None):
     if flags:
         env['RUSTFLAGS'] = flags
     cmd = ['cargo', 'build', '--release', '--offline', '--quiet', '--manifest-path', mpath]
+    own = []
     if features and ('unchecked' in features or 'unsafe' in features):
         # the library then has its `*_unchecked` entry points: build the C14 explorer of the replay crate too
-        cmd += ['--features', 'unchecked']
+        own.append('unchecked')
+    if features and 'strict-parser' in features:
+        # the reference parser of the replay crate becomes the strict one; C14 runs the strict-parser explorer
+        own.append('strict-parser')
+    if own:
+        cmd += ['--features', ','.join(own)]
     try:
         p = subprocess.run(cmd,
                            env=env, stdout=subprocess.PIPE, stderr=subprocess.PIPE, text=True, timeout=900)
